@@ -71,20 +71,18 @@ Fixpoint calc_loop (fuel : nat) (levels : list Z) (queue : list nat) : lres (lis
       end
   end.
 
-(*  levels_dict = {i: [] for i in range(max(levels) + 1)}
+(*  levels_dict = {i: [] for i in range(max(levels, default=-1) + 1)}
     for c_i in range(len(poset)): levels_dict[levels[c_i]].append(c_i)                          *)
 Definition calc_levels : lres (list Z * list (list nat)) :=
   match calc_loop (S n) (repeat (-1)%Z n) tops with
   | LErr e => LErr e
   | LOk levels =>
-      match zmax_list levels with
-      | None => LErr 2
-      | Some m =>
-          if existsb (fun z => Z.ltb z 0) levels then LErr 1
-          else LOk (levels,
-                    map (fun k => filter (fun i => Z.eqb (lev levels i) (Z.of_nat k)) elems)
-                        (seq 0 (Z.to_nat (m + 1))))
-      end
+      (* max(levels, default=-1) *)
+      let m := match zmax_list levels with Some m => m | None => (-1)%Z end in
+      if existsb (fun z => Z.ltb z 0) levels then LErr 1
+      else LOk (levels,
+                map (fun k => filter (fun i => Z.eqb (lev levels i) (Z.of_nat k)) elems)
+                    (seq 0 (Z.to_nat (m + 1))))
   end.
 
 (* ------------------------------------------------------------------ fcart_layout *)
